@@ -154,7 +154,7 @@ CLAIMS = {
              "exactly one ball to the ball_missing_target and reports one missing ball, takes one available ball off "
              "exactly when a replacement was found on the path and is requested for the device that lost it; the arrival "
              "callback sets up one eject per unclaimed ball and announces balls_available once per new ball. Equality with the physical machine, conservation and bounds over all "
-             "schedules - the bulk of the property - are NOT decided (runtime arithmetic over interleavings). Also: a ball assumed to have jumped between playfields leaves both counts of the source and enters both of the target, only towards a playfield with a negative count, one ball per deficit. Also: lost/ejected/incoming ball handlers and the arrival loops move exactly one ball per event. Also: the count handler's old-count snapshot is read after the await that delivers the new count and nothing is awaited before the new count is stored; the switch counter distrusts a jam-only count of one exactly when it had balls before; end_eject is told the awaited confirmation outcome (or False), never an assumed True; ball-search give-up writes off exactly the playfield's count read before it is zeroed. Also: a ball put into another device's unclaimed pool is taken out of the device's own pool on the same path (CLAIM-4, exposed defect F19, fixed). Also: an eject is tracked from a settled count (EjectTracker.will_eject and the entrance counter wait for a stable count first); the entrance counter keeps one ignore window per switch and never clears the whole table.",
+             "schedules - the bulk of the property - are NOT decided (runtime arithmetic over interleavings). Also: a ball assumed to have jumped between playfields leaves both counts of the source and enters both of the target, only towards a playfield with a negative count, one ball per deficit. Also: lost/ejected/incoming ball handlers and the arrival loops move exactly one ball per event. Also: the count handler's old-count snapshot is read after the await that delivers the new count and nothing is awaited before the new count is stored; the switch counter distrusts a jam-only count of one exactly when it had balls before; end_eject is told the awaited confirmation outcome (or False), never an assumed True; ball-search give-up writes off exactly the playfield's count read before it is zeroed. Also: a ball put into another device's unclaimed pool is taken out of the device's own pool on the same path (CLAIM-4, exposed defect F19, fixed). Also: an eject is tracked from a settled count (EjectTracker.will_eject and the entrance counter wait for a stable count first); the entrance counter keeps one ignore window per switch and never clears the whole table. Also: balls that left together with an ejected one are reported one by one and the recount is stored on every path after the report (F22, fixed); the configured ball switches are never edited (generic CONFIG-0), so the capacity stays the configured one.",
         technique="CFG must-pass / guard analysis; who-may-call / who-may-write; paired-delta extraction",
         ref="4/C04"),
     "C06": dict(
